@@ -11,6 +11,7 @@ RULE = ('validator sets of size 0..N with every weight vector over {1,2,3} (plus
         'ids. Oracle: accept <=> non-empty set, every entry a valid Ed25519 signature over magic+root_hash+file_hash by a member, no member twice, '
         '3*signed weight > 2*total weight. Real Ed25519 keys (PyNaCl). non-trivial = at least one signature; states = distinct (weights, sequence); '
         'transitions = check_block_signatures calls; traces = verdicts compared with the reference predicate')
+RULE += ' Fifth session: argument forms - validator list and signature list as one-shot iterators / generators, tuple and dictionary view.'
 LEVEL_TEXT = ('Bounded-exhaustive: every small validator set and every signature sequence over the fault alphabet (all multisets and orders, '
               'duplicates, foreign and invalid entries) is submitted to the real check with real Ed25519 signatures and the verdict compared with '
               'the one-line reference predicate, in both directions (soundness and completeness).')
